@@ -13,7 +13,15 @@ Driver for C18 (governance updates). One output line per input line.
 * `mint m= now= buyer= funds=` · `airdrop m= funds=` · `pal m= limit=` · `shuffle m= buyer= funds=`
 * `ustt m= now= t=<ns|->` · `price m= now= p=` · `status m= v= b= e=` · `qs m=` · `qm m=`
 
-Money-moving ops answer `ok dev= liq= lp= seller= burn= pool=` (who received how much), the others `ok`; failures `err`.
+* `upd … [via=<s|m>] acc=<0|1>`: `via=m` = the same message through the factory's `migrate`; `acc` = the implementation's
+  verdict, a CHECKED witness (`LP.Gov.updW`): accepted by both → `ok`; refused by both → `err`; refused by the code only →
+  `err ## refusal-not-in-model` (params unchanged, DRIFT); accepted by the code only → `err` (disagrees with the code's `ok`)
+* `mignone` = `migrate` with a `null` message → `ok`, nothing changes
+* `setwl m= now= wlp=<d:a>` → `ok` | `err`
+
+Output lines are `primary ## outside-projection`. Money-moving ops answer `ok fee=<everything that did not go to the seller>
+seller=<seller's share> ## dev= liq= lp= burn= pool=` (the split between the fee recipients belongs to C06/C02), `qm` answers
+`minter kind= price= pal= ## mintable=` (the running supply belongs to C01); the others `ok`; failures `err`.
 -/
 open LP LP.Proto LP.Gov
 
@@ -102,7 +110,9 @@ def money (ms : List Msg) : String :=
   let burn := (ms.map fun m => match m with | .burn c => c.amount | _ => 0).sum
   let pool := (ms.map fun m => match m with | .fundPool _ c => c.amount | _ => 0).sum
   let devs := ms.filterMap fun m => match m with | .send to c => if isDev to then some (to, c.amount) else none | _ => none
-  s!"dev={renderPairs devs} liq={sumTo (· == LIQUIDITY_DAO)} lp={sumTo (· == LAUNCHPAD_DAO)} seller={sumTo (· == ADMIN)} burn={burn} pool={pool}"
+  let seller := sumTo (· == ADMIN)
+  let all := (ms.map fun m => m.amount).sum
+  s!"fee={all - seller} seller={seller} ## dev={renderPairs devs} liq={sumTo (· == LIQUIDITY_DAO)} lp={sumTo (· == LAUNCHPAD_DAO)} burn={burn} pool={pool}"
 
 structure D where
   env : Env := ⟨[], []⟩
@@ -110,7 +120,6 @@ structure D where
 
 def parseOp (ws : List String) : Option (Op × Bool) :=
   match ws.head? with
-  | some "upd" => do let u ← parseUpd ws; pure (.upd u, false)
   | some "create" => do
     let m ← natKv ws "m"; let sg ← natKv ws "sg721"; let num ← optNatKv ws "num"; let pal ← natKv ws "pal"
     let price ← coinKv ws "price"; let funds ← coinsKv ws "funds"; let start ← natKv ws "start"
@@ -129,6 +138,9 @@ def parseOp (ws : List String) : Option (Op × Bool) :=
   | some "status" => do
     let m ← natKv ws "m"; let v ← boolKv ws "v"; let b ← boolKv ws "b"; let e ← boolKv ws "e"
     pure (.status m v b e, false)
+  | some "setwl" => do
+    let m ← natKv ws "m"; let now ← natKv ws "now"; let p ← coinKv ws "wlp"; pure (.setWl m now p, false)
+  | some "mignone" => pure (.mig none, false)
   | _ => none
 
 def c18Line (d : D) (line : String) : D × String :=
@@ -155,8 +167,18 @@ def c18Line (d : D) (line : String) : D × String :=
         | none => (d, "err")
       | "qm" =>
         match (natKv ws "m").bind w.minter with
-        | some r => (d, s!"minter kind={r.kind.idx} price={rc r.price} mintable={renderOpt r.mintable} pal={r.pal}")
+        | some r => (d, s!"minter kind={r.kind.idx} price={rc r.price} pal={r.pal} ## mintable={renderOpt r.mintable}")
         | none => (d, "err")
+      | "upd" =>
+        -- governance update (sudo or migrate: the same function of the params) with the implementation's verdict
+        match parseUpd ws, (kv ws "acc").bind bool? with
+        | some u, some acc =>
+          match updW w.params u acc with
+          | (p, .applied) => ({ d with w := some { w with params := p } }, "ok")
+          | (_, .refused) => (d, "err")
+          | (_, .refusedByCodeOnly) => (d, "err ## refusal-not-in-model")
+          | (_, .acceptedByCodeOnly) => (d, "err")
+        | _, _ => (d, "bad-op")
       | _ =>
         match parseOp ws with
         | none => (d, "bad-op")
